@@ -65,6 +65,10 @@ class Ctx:
             else:
                 new.append((sig, v))
         rdir = os.path.join(OUT, "replays", self.pid)
+        if os.path.isdir(rdir):  # replays describe the latest run only
+            for f in os.listdir(rdir):
+                if f.endswith(".json"):
+                    os.unlink(os.path.join(rdir, f))
         for sig, v in new:
             os.makedirs(rdir, exist_ok=True)
             h = hashlib.sha1(sig.encode()).hexdigest()[:12]
